@@ -66,6 +66,19 @@ def rand_spec(rnd, vlen):
             f"{fill}{align}{width}" + ("!" if bang else ""))
 
 
+SIGS_PLAIN = ["void MyClass::myMethod(int, QString)", "int main(int, char**)", "f", "", "virtual void A::B::run() const",
+              "QString Widget::title() const", "static int helper(long)", "unsigned long long ns::count(unsigned int)",
+              "Foo::Foo(int)", "Foo::~Foo()", "bool a::b::c::d::check(const QString&, int) const"]
+
+
+def clean_func(sig):
+    """mirror of QtlPattern!CleanFunc, used only to label the case; the specification recomputes it"""
+    p = sig.index(40) if 40 in sig else len(sig)
+    head = sig[:p]
+    s = len(head) - head[::-1].index(32) if 32 in head else 0
+    return sig[s:p]
+
+
 class Case:
     def __init__(self, cid, rnd):
         self.id = cid
@@ -77,8 +90,12 @@ class Case:
         self.cat = rand_text(r, 1, 12, avoid=(0x2028, 0xFEFF)) if r.random() < 0.8 else u("default")
         self.file = u(r.choice(["/home/u/proj/src/", "C:\\proj\\", "", "rel/dir/", "/a b/"])) + rand_text(r, 1, 8, avoid=(47, 92, 0x2028, 0xFEFF)) + u(".cpp")
         self.line = r.choice([0, 1, 42, 99999, 123456])
-        self.func = u(r.choice(["void MyClass::myMethod(int, QString)", "int main(int, char**)", "f", "",
-                                "static bool ns::T<int>::op(const std::map<int, int>&) const"]))
+        # signatures of the plain kind "[qualifiers] type name(args) [const]" (no templates, operators, function
+        # pointers): for these the cleaned name of %{func} is defined without doubt (QtlPattern!CleanFunc); the last
+        # entry is outside that grammar and only ever shown in full (%{function})
+        self.func_plain = r.random() < 0.85
+        self.func = u(r.choice(SIGS_PLAIN) if self.func_plain else
+                      "static bool ns::T<int>::op(const std::map<int, int>&) const")
         self.attrs = {}
         for name in r.sample(ATTR_NAMES, r.randint(0, 4)):
             x = r.random()
@@ -139,7 +156,7 @@ class Case:
                     self.features.add("zwsp-in-literal")
             elif x < 0.62:
                 ref = r.choice(["message", "message", "type", "category", "file", "line", "function", "threadid", "qthreadptr",
-                                "shortfile", "time"])
+                                "shortfile", "time"] + (["func", "func"] if self.func_plain else []))
                 name = ref
                 if ref == "shortfile" and r.random() < 0.5:
                     base = r.choice(["/home/u/proj", "/home/u/proj/", "C:\\proj", "/nomatch"])
@@ -252,6 +269,8 @@ class Case:
                     v = u(str(self.line))
                 elif ref == "function":
                     v = self.func
+                elif ref == "func":
+                    v = clean_func(self.func)
                 elif ref == "threadid":
                     v = out["threadid"]
                 elif ref == "qthreadptr":
@@ -271,7 +290,11 @@ class Case:
                 toks.append({"k": "attr", "has": t["has"], "val": v, "opt": t["opt"], "n": t["n"], "m": t["m"], "spec": t["spec"]})
             else:
                 toks.append(dict(t))
-        return {"e": "Case", "id": self.id, "tokens": toks, "type": self.type, "out": out["out"]}
+        ev = {"e": "Case", "id": self.id, "tokens": toks, "type": self.type, "out": out["out"]}
+        if any(t["k"] == "ph" and t.get("ref") == "func" for t in self.tokens):
+            ev["sig"] = self.func                   # Trace_Pattern: the value of %{func} is CleanFunc(sig)
+            ev["clean"] = clean_func(self.func)
+        return ev
 
 
 def run_driver(bdir, cases, work, tag):
